@@ -16,6 +16,7 @@ Streams:
 """
 from __future__ import annotations
 
+import json
 import math
 import random
 from fractions import Fraction
@@ -103,9 +104,9 @@ class Recorder:
             rec.cur_eval["out"] = [float(v) for v in out]
 
         class RecState(base):  # noqa
-            def __init__(self, eqs, ctl, par, cd):
+            def __init__(self, *args, **kwargs):     # whatever signature the integration state has today
                 rec.state = self
-                super().__init__(eqs, ctl, par, cd)
+                super().__init__(*args, **kwargs)
 
             def init(self):
                 if rec.cycles:
@@ -134,12 +135,12 @@ class Recorder:
                 return r
 
         class RecRK45:
-            def __init__(self, fun, t0, y0, t_bound, max_step):
+            def __init__(self, fun, t0, y0, t_bound, max_step=float("inf"), **kwargs):
                 cyc = rec.cycles[-1]
                 cyc["T"] = float(t_bound)
                 cyc["max_step"] = max_step
                 if rec.fake is None:
-                    self.inner = real_rk(fun=fun, t0=t0, y0=y0, t_bound=t_bound, max_step=max_step)
+                    self.inner = real_rk(fun=fun, t0=t0, y0=y0, t_bound=t_bound, max_step=max_step, **kwargs)
                 else:
                     self.inner = FakeRK45(rec.fake(len(rec.cycles), float(t_bound)), fun, y0)
                 self.nd = 0
@@ -190,7 +191,12 @@ class Recorder:
         except _WallTime:
             self.error = "walltime"
         except Exception as e:  # noqa: BLE001  (recorded, reported by the caller)
-            self.error = f"{type(e).__name__}:{e}"
+            import traceback
+            last = traceback.extract_tb(e.__traceback__)[-1]
+            # an exception raised by THIS file's recording shim (e.g. a changed private signature it hooks into) says
+            # nothing about run_ode: it is a broken correspondence, not a failing input
+            shim = last.filename.endswith("c10.py") and isinstance(e, (TypeError, AttributeError, KeyError, IndexError))
+            self.error = ("shim:" if shim else "") + f"{type(e).__name__}:{e} ({last.filename.split('/')[-1]}:{last.lineno})"
         finally:
             if use_alarm:
                 signal.setitimer(signal.ITIMER_REAL, 0)
@@ -454,6 +460,10 @@ def real_programs(ck: Check):
             yield "lin:stable", [1.0, -0.5], lin_eq, lin_ctrl, P(k=0.5), 1, steps, mt, True, (1.0, -1.0)
     for a, k in ((0.0, 0.0), (-1.0, 0.0), (0.5, 1.0), (0.25, 0.0), (-2.0, 1.0), (1.0, 1.0)):
         yield "lin:analytic", [rng.choice([1.0, -2.0, 0.5]), a], lin_eq, lin_ctrl, P(k=k), 1, 33, 4.0, True, None
+    # high-gain feedback (fast decay): the integrator rejects step attempts and retries with a smaller step
+    for a, k in ((1.0, 21.0), (1.0, 51.0), (1.0, 101.0), (0.5, 200.0), (-1.0, 400.0)):
+        for steps, mt in ((33, 4.0), (200, 1.0), (17, 0.05)):
+            yield "lin:analytic", [rng.choice([1.0, -2.0]), a], lin_eq, lin_ctrl, P(k=k), 1, steps, mt, True, None
     for val in (0.25, -1.0, 3.0):
         yield "lin:timedep", [1.0, -0.5], lin_eq, lin_ctrl, P(k=0.5, mode=6.0, val=val), 1, 17, 4.0, True, None
         yield "lin:timedep", [0.5, 0.25], lin_eq, lin_ctrl, P(k=1.0, mode=6.0, val=val), 1, 9, 2.0, True, None
@@ -588,6 +598,11 @@ def run_real(ck: Check, ode_mod, np, ops, expect):
                     "simulation must terminate for every controller, incl. NaN/inf outputs", case)
             ck.count("real:walltime")
             continue
+        if res is None and str(rec.error).startswith("shim:"):
+            ck.compare("recorder", f"odeS <{label} start={start} steps={steps} max_time={mt}>", "recording shim fits run_ode",
+                       "recording shim no longer fits: " + rec.error)
+            ck.count("real:shim_broken")
+            continue
         if res is None:
             if rec.error != "budget":
                 ck.spec(False, "no_result", f"run_ode did not return: {rec.error}", case)
@@ -619,6 +634,59 @@ def run_real(ck: Check, ode_mod, np, ops, expect):
         expect.append(("odeC", "real:" + label, None, (case, res.shape, bounds)))
         jobs.append((label, start, res, n, cdim, steps, mt, extra, params, case))
     return jobs
+
+
+# --------------------------------------------------------------------------- multi_run_ode (the glue the objective uses)
+def multi_run(ck: Check, ode_mod, np) -> None:
+    """`multi_run_ode` = one `run_ode` per starting state (test states with the test budget first, then training states
+    with the training budget), each handed to every collector as (index, ode, j_from_ode(ode), t_from_ode(ode)).
+    Judged against separate calls of the (already judged) `run_ode` / `j_from_ode` / `t_from_ode`."""
+    rng = ck.rng
+    progs = {}
+    for (label, start, eqs, ctl, params, cdim, steps, mt, _spec, _extra) in real_programs(ck):
+        kind = label.split(":")[1]
+        if kind in ("stable", "analytic", "timedep", "exp", "afterT") and kind not in progs:
+            progs[kind] = (label, start, eqs, ctl, params, cdim)
+
+    def same(a, b):
+        return a.shape == b.shape and bool(np.array_equal(a, b, equal_nan=True))
+
+    for kind, (label, start, eqs, ctl, params, cdim) in sorted(progs.items()):
+        n = len(start)
+        for _ in range(2 if ck.quick else 8):
+            test = [np.array(start, dtype=float)] + [np.array([start[0] * rng.choice([0.5, -1.0, 2.0]), start[1]])
+                                                     for _ in range(rng.randint(0, 2))]
+            train = [np.array([start[0] + rng.choice([0.25, -0.75]), start[1]]) for _ in range(rng.randint(0, 2))]
+            ts, tt = rng.choice([2, 5, 17]), rng.choice([1.0, 4.0])
+            rs, rt = rng.choice([3, 9, 33]), rng.choice([0.5, 2.0])
+            use, gamma = rng.choice([-1, 0, 1, n]), rng.choice([0.1, 0.5, 2.0])
+            got_a, got_b = [], []
+            case = {"program": label, "test": [v.tolist() for v in test], "training": [v.tolist() for v in train],
+                    "test_steps": ts, "test_time": tt, "training_steps": rs, "training_time": rt,
+                    "use_state_dims": use, "gamma": gamma}
+            coll = (lambda i, o, j, t: got_a.append((i, o, j, t)), lambda i, o, j, t: got_b.append((i, o, j, t)))
+            single = rng.random() < 0.3
+            with np.errstate(all="ignore"):
+                ode_mod.multi_run_ode(test, train, coll[0] if single else coll, eqs, ctl, params, cdim, ts, tt, rs, rt, use, gamma)
+                want = [ode_mod.run_ode(sp, eqs, ctl, params, cdim, ts, tt) for sp in test] + \
+                       [ode_mod.run_ode(sp, eqs, ctl, params, cdim, rs, rt) for sp in train]
+            ck.count("multi_run:" + kind)
+            ck.case(f"multi_run {json.dumps(case, sort_keys=True)}")
+            ok = len(got_a) == len(want) and (single or len(got_b) == len(want))
+            ck.spec(ok, "multi_run", f"collector called {len(got_a)}/{len(got_b)} times for {len(want)} starting states", case)
+            if not ok:
+                continue
+            for k, w in enumerate(want):
+                i, o, j, t = got_a[k]
+                with np.errstate(all="ignore"):
+                    wj = guarded_j(ck, ode_mod, np, w, n, use, gamma, case)
+                    wt = ode_mod.t_from_ode(w)
+                good = (i == k and same(o, w) and (j == wj or (j != j and wj != wj)) and t == wt
+                        and (single or (got_b[k][0] == k and same(got_b[k][1], w) and got_b[k][3] == wt)))
+                ck.spec(good, "multi_run",
+                        f"multi_run_ode result #{k}: index {i}, j={j} (separate j_from_ode: {wj}), t={t} (t_from_ode: {wt}), "
+                        f"simulation {'equals' if same(o, w) else 'DIFFERS from'} the separate run_ode call with the "
+                        f"{'test' if k < len(test) else 'training'} budget", case)
 
 
 # --------------------------------------------------------------------------- figure of merit
@@ -853,6 +921,7 @@ def streams(ck: Check) -> None:
     # (3) figure of merit
     run_j(ck, ode_mod, np, ops, expect, real_jobs)
     numeric_tests(ck, ode_mod, np, real_jobs)
+    multi_run(ck, ode_mod, np)
     system_validation(ck, np, ops, expect)
 
     outs = ck.model(ops)
